@@ -11,6 +11,7 @@ top T' = max(0, T - s) still start with the original history, unaltered; return 
 rows below blank; top_usable_row == T'; cursor at (T' + cursor_row - ret, cursor_col) when that is >= 0; visibility; SGR default.
 """
 import itertools
+import os
 import termios
 
 from mc.runner import Acc, Report
@@ -351,6 +352,58 @@ def explore_long(args):
     return acc.export()
 
 
+def std_fds_session(k0, keep):
+    """Runs in an interpreter of its own: the terminal (a pty) is put on descriptors 0 and 1 - where the standard streams live - and
+    the window is given stream OBJECTS of its own on those numbers (not sys.__stdin__ / sys.__stdout__).  A short session of renders;
+    returns an exported Acc."""
+    import sys
+
+    m, s = os.openpty()
+    os.dup2(s, 0)
+    os.dup2(s, 1)
+    os.close(s)
+    os.openpty = lambda: (m, 1)
+    g = globals()
+
+    base_cls = g["ScriptIn"]
+
+    class In0(base_cls):
+        def __init__(self, fd):
+            base_cls.__init__(self, 0)
+
+    g["ScriptIn"] = In0
+    acc = Acc(seed=0)
+    h, w = 3, 4
+    world = World(keep, True)
+    desc, term0 = [(d, t) for d, t in initial_terms(h, w) if d["kind"] == "printed_lines" and d["k"] == k0][0]
+    base = {"size": [h, w], "keep_last_line": keep, "hide_cursor": True, "initial": {"kind": "printed_lines", "k": k0}, "family": "terminal on descriptors 0 and 1, own stream objects",
+            "std_streams": [getattr(sys.__stdin__, "fileno", lambda: None)() if sys.__stdin__ else None, getattr(sys.__stdout__, "fileno", lambda: None)() if sys.__stdout__ else None]}
+    T0 = term0.r
+    hist0 = history_lines(term0, T0)
+    try:
+        st = world.enter(term0.copy())
+    except Exception as ex:  # noqa
+        acc.failure("C07:enter_raises:" + type(ex).__name__, base, repr(ex))
+        return acc.export()
+    if world.win.top_usable_row != T0:
+        acc.failure("C07:top_usable_row", dict(base, at="enter"), "%r != %r" % (world.win.top_usable_row, T0))
+        return acc.export()
+    T = T0
+    for step in range(8):
+        options = list(menu(h, w, step, 4))
+        arr, cur = options[(step * 5 + k0) % len(options)]
+        case = dict(base, step=step, render=show_arr(arr), cursor=list(cur))
+        acc.case(True, key=("stdfds", k0, keep, step), sample=case)
+        acc.transitions += 1
+        res = check_render(acc, world, st, T, hist0, arr, cur, case, None)
+        if res is None:
+            break
+        st, T, _ = res
+    else:
+        check_exit(acc, world, st, T, hist0, dict(base, step="exit"))
+    return acc.export()
+
+
 WIDE_TEXTS = ("", "こ", "こん", "aこb", "e\u0301te\u0301", "abcde", "こんa", "こんに", "a\u200db", "xこ\u0301y")
 
 
@@ -453,6 +506,19 @@ def run(ctx):
     wide = [(ctx.tier, ctx.seed, h, w, k0, 3 if ctx.thorough else 2) for (h, w) in ((3, 7), (2, 9)) for k0 in range(0, h + 1)]
     for d in ctx.pmap(explore_wide, wide):
         rep.merge(d, "wide_characters")
+    import pickle
+    import subprocess
+    import sys
+    import tempfile
+
+    for k0 in (0, 2, 3):
+        for keep in (False, True):
+            # an ordinary child interpreter (multiprocessing children have a closed sys.__stdin__)
+            with tempfile.NamedTemporaryFile(suffix=".pickle") as tf:
+                r = subprocess.run([sys.executable, "-X", "utf8", "-m", "mc.std_fds_main", str(k0), str(int(keep)), tf.name], stdin=subprocess.DEVNULL, stdout=subprocess.DEVNULL, stderr=subprocess.PIPE, text=True, timeout=300)
+                if r.returncode != 0:
+                    raise RuntimeError("mc.std_fds_main failed: " + r.stderr[-1500:])
+                rep.merge(pickle.load(open(tf.name, "rb")), "terminal_on_descriptors_0_and_1")
     sess = [(ctx.tier, ctx.seed, h, w, keep, hide, k0, stride) for (h, w) in ((3, 3), (2, 5)) for keep in (False, True) for hide in (True, False) for k0, stride in ((0, 1), (2, 7), (h, 5))]
     for d in ctx.pmap(explore_long, sess):
         rep.merge(d, "one_window_hundreds_of_renders")
